@@ -30,6 +30,7 @@ import (
 	"context"
 	"encoding/binary"
 	"fmt"
+	"strings"
 	"sync/atomic"
 	"testing"
 
@@ -136,8 +137,40 @@ func (c09H2) ResetBytes(req []byte) []byte {
 
 func (c09H2) Quiesce(pool types.ConnectionPool, shutdownRequested bool) error { return nil }
 func (c09H2) AfterSend(sender types.StreamSender) error                       { return nil }
-func (c09H2) SelfDeadlock(stack string) (class, detail string)                { return "", "" }
 func (c09H2) PredictDeadlock(pool types.ConnectionPool, ev string, conn *vfake.Conn) (string, string) {
+	return "", ""
+}
+
+// Self-deadlock of the request write (finding F13, findings/C09-http2-write-deadline.md):
+// clientStream.endStream holds clientStreamConnection.mutex while the codec writes the HEADERS
+// frame; when that write runs into the write deadline the network layer closes the connection on
+// the writing goroutine (connection.writeDirectly -> Close(NoFlush, OnWriteTimeout)) and the close
+// event reaches clientStreamConnection.OnEvent (and, through the codec client, Reset), which lock
+// the same mutex.
+const (
+	c09DLH2WriteClass  = "I5 self-deadlock when the write of a request runs into the write deadline (stream never destroyed, the stream connection's mutex never released)"
+	c09DLH2WriteDetail = "clientStream.endStream holds clientStreamConnection.mutex across protocol.Encode, which writes the HEADERS frame; the write runs into the deadline, the network layer closes the connection with OnWriteTimeout on the writing goroutine and the synchronous close event runs clientStreamConnection.OnEvent (stream.go:674) / client.OnEvent -> Reset (stream.go:734), which lock the same mutex: the goroutine sending the request waits for itself for ever, the stream is never reset or destroyed (Requests / upstream_request_active never released) and whoever resets a stream of this connection later (the request's own timeout) blocks on the mutex too"
+)
+
+func (c09H2) SelfDeadlock(stack string) (class, detail string) {
+	a := strings.Index(stack, "(*clientStreamConnection).OnEvent")
+	if a < 0 {
+		a = strings.Index(stack, "(*clientStreamConnection).Reset")
+	}
+	if b := strings.Index(stack, "(*clientStream).endStream"); a >= 0 && b > a {
+		return c09DLH2WriteClass, c09DLH2WriteDetail
+	}
+	return "", ""
+}
+
+// PredictWriteDeadlock (c09.WriteDeadlockPredictor): a NewStream of this pool is admitted iff the
+// Requests resource has room (the connection is created on demand, max_connections is not
+// enforced), and the request of every admitted stream is written under the mutex.
+func (c09H2) PredictWriteDeadlock(pool types.ConnectionPool) (string, string) {
+	p := pool.(*connPool)
+	if p.Host().ClusterInfo().ResourceManager().Requests().CanCreate() {
+		return c09DLH2WriteClass, c09DLH2WriteDetail
+	}
 	return "", ""
 }
 
